@@ -22,7 +22,8 @@ EXPLANATION = (
     ' Also: (R1b) no skip path in the reachability loops; (R7) marker read precedes the metadata read; (R8) markers are removed only after the commit point; (R9) S3 listings are complete (paginator / NextContinuationToken) and confined; (R10) the collector honours every fresh marker (each non-stale *.inflight entry reaches protected.add; a payload naming a path determines the protected path).'
     " (R11) the collector's handler table (shared with C07.R1): a marker it cannot list / stat / read keeps protection in force or aborts."
     ' (R12) who-may-delete census (shared with C09.R3); (R13) every data-file production site is dominated by _register_inflight for the same path (shared with C06.R10).'
-    ' (R14) the manifest parsers drop no entry (shared with C14.R7).')
+    ' (R14) the manifest parsers drop no entry (shared with C14.R7).'
+    " (R18) the marker abandonment window is never derived: call sites of collect / _load_inflight_protection omit it, name DEFAULT_INFLIGHT_TIMEOUT_MS or pass on a same-default parameter; (R19) no handler on the collector's read path (metadata resolution, manifest readers, backends) completes normally.")
 NOT_DECIDED = ("histories x location spellings at run time; that orphans are in fact removed; grace-period arithmetic")
 
 GC = "garbage_collector.GarbageCollector"
@@ -67,6 +68,81 @@ def check(ctx: Ctx) -> None:
     # the manifests name
     from .c20 import r9_key_roundtrip
     r9_key_roundtrip(ctx, "C05.R17")
+    abandonment_window_not_derived(ctx)
+    # the reachable set is computed from what the collector is TOLD: a callee that answers a failure with an older metadata
+    # version / a shorter list makes live files look unreachable
+    from .c14 import READ_MODULES, r1 as c14_r1
+    c14_r1(ctx, "C05.R19", [ctx.fn("garbage_collector.GarbageCollector.collect")], READ_MODULES + ("storage_backend", "s3_consistency"),
+           "collector's inputs: every handler in a function GarbageCollector.collect reaches (outside the collector itself)", 10, 12)
+
+
+def abandonment_window_not_derived(ctx: Ctx, rid: str = "C05.R18") -> None:
+    ctx.rule(rid, "the marker abandonment window is a constant of the design, never derived: every package call of "
+             "GarbageCollector.collect / _load_inflight_protection either omits the in-flight timeout (default "
+             "DEFAULT_INFLIGHT_TIMEOUT_MS), names that constant, or passes on its own parameter whose default is that constant (an "
+             "explicit choice of the caller's caller) - a window computed from the grace period, a table property or a clock "
+             "strips the markers of a transaction that is still running", 1)
+    from .common import resolve_value
+    n_sites = 0
+
+    def is_const(e: Optional[ast.AST]) -> bool:
+        return e is not None and (dotted(e) or "").split(".")[-1] == "DEFAULT_INFLIGHT_TIMEOUT_MS"
+
+    def ok_value(f: FunctionInfo, e: ast.AST, at: int, depth: int = 0) -> Tuple[bool, str]:
+        for src, sat in resolve_value(ctx, f, e, at):
+            if src is None:
+                return False, "unresolved"
+            if is_const(src):
+                continue
+            if isinstance(src, ast.Name) and any(p.name == src.id for p in f.params) and ctx.cfg(f).entry in ctx.rd(f).reaching(sat, src.id) \
+                    and len(ctx.rd(f).reaching(sat, src.id)) == 1:
+                par = next(p for p in f.params if p.name == src.id)
+                if is_const(par.default):
+                    continue
+                if par.default is None and depth < 3:
+                    # a required parameter: judged at this function's own call sites
+                    sites = ctx.eff.call_sites.get(f.qname, [])
+                    bad = None
+                    for caller, n in sites:
+                        a = ctx.eff.bind_arg(n.ast, f, par.name, True) if isinstance(n.ast, ast.Call) else None
+                        if a is None:
+                            bad = f"{caller.qname} passes nothing"
+                            break
+                        good, why = ok_value(caller, a, n.id, depth + 1)
+                        if not good:
+                            bad = why
+                            break
+                    if sites and bad is None:
+                        continue
+                    return False, bad or f"parameter `{par.name}` of {f.name} has no call site in the package"
+                return False, f"parameter `{par.name}` of {f.name} defaults to `{norm_text(par.default) if par.default is not None else None}`"
+            return False, f"`{norm_text(src)[:70]}` in {f.name}"
+        return True, ""
+
+    for q in ("garbage_collector.GarbageCollector.collect", "garbage_collector.GarbageCollector._load_inflight_protection"):
+        t = ctx.fn(q)
+        pn = next((p.name for p in t.params if "inflight" in p.name or "timeout" in p.name), None)
+        if pn is None:
+            raise AnalysisError(f"{q} has no in-flight timeout parameter")
+        par = next(p for p in t.params if p.name == pn)
+        if t.name == "collect":
+            ctx.ob(rid, t, "collect()'s own default is the design constant", None, is_const(par.default),
+                   f"default of `{pn}`: {norm_text(par.default) if par.default is not None else None}", text="default")
+        for caller, n in ctx.eff.call_sites.get(t.qname, []):
+            if not isinstance(n.ast, ast.Call):
+                continue
+            n_sites += 1
+            a = ctx.eff.bind_arg(n.ast, t, pn, True)
+            if a is None:
+                ctx.ob(rid, caller, f"{t.name}() call leaves the window at its default", n, t.name == "collect", "omitted")
+                continue
+            good, why = ok_value(caller, a, n.id)
+            ctx.ob(rid, caller, f"{t.name}() is handed the design constant or an explicit choice passed through", n, good,
+                   "the in-flight timeout is DEFAULT_INFLIGHT_TIMEOUT_MS or the caller's own same-default parameter" if good else
+                   f"the abandonment window is derived: {why} - markers of a transaction that is still open can be swept and its "
+                   "files collected")
+    if n_sites == 0:
+        raise AnalysisError("no call site of GarbageCollector.collect found")
 
 
 class Contrib:
